@@ -92,12 +92,12 @@ def spec_depth(spec):
     return 0 if spec[0] == 'T' else 1 + max(spec_depth(s) for s in spec[2:])
 
 
-def build(spec, terms):
+def build(spec, terms, types=('TERMINAL', 'FUNCTION')):
     """The real object graph, linked the way TreeSpace.grow links it."""
     if spec[0] == 'T':
-        return Node(name=spec[1], type='TERMINAL', value=terms[spec[1]])
-    n = Node(name=spec[1], type='FUNCTION')
-    kids = [build(s, terms) for s in spec[2:]]
+        return Node(name=spec[1], type=types[0], value=terms[spec[1]])
+    n = Node(name=spec[1], type=types[1])
+    kids = [build(s, terms, types) for s in spec[2:]]
     n.left = kids[0]
     kids[0].parent = n
     if len(kids) > 1:
@@ -211,10 +211,12 @@ def kind_terms(kind):
         return [big[::2, ::3], big.T[1::3, :2].T[:, :2]]
     if kind == '3d':
         return [base.reshape(1, 2, 3), (base * -0.5).reshape(1, 2, 3)]
+    if kind in ('runtime-type-strings', 'unpickled'):
+        return [base, base[::-1] * 0.5 + 1.0]
     raise KeyError(kind)
 
 
-KINDS = ['0d', '1d', 'f32', 'fortran', 'view', '3d']
+KINDS = ['0d', '1d', 'f32', 'fortran', 'view', '3d', 'runtime-type-strings', 'unpickled']
 
 
 def strict_same(a, b):
@@ -224,7 +226,14 @@ def strict_same(a, b):
 def run_kind(kind, spec):
     given = kind_terms(kind)
     keep = [np.array(t, copy=True) for t in given]
-    root = build(spec, given)
+    if kind == 'runtime-type-strings':
+        # equal to 'TERMINAL' / 'FUNCTION' but distinct string objects (a parser, a JSON file): node types are compared by value
+        root = build(spec, given, (''.join(['TERM', 'INAL']), 'function'.upper()))
+    else:
+        root = build(spec, given)
+    if kind == 'unpickled':
+        import pickle
+        root = pickle.loads(pickle.dumps(root))                      # a tree restored from a file / sent to another process
 
     def walk(sp, n):
         with np.errstate(all='ignore'):
@@ -244,7 +253,7 @@ def run_kind(kind, spec):
                     return m
         return None
     msg = walk(spec, root)
-    if not msg and any(not strict_same(a, b) for a, b in zip(keep, given)):
+    if not msg and kind != 'unpickled' and any(not strict_same(a, b) for a, b in zip(keep, given)):
         msg = 'evaluating modified a %s terminal array in place' % kind
     return msg
 
